@@ -20,6 +20,11 @@ CHECKS['C14'] = dict(
     note='Trusted: rustc MIR dump, vf.engine, bytes/std::net contract models, z3. String::from_utf8 is a may-fail contract.',
     technique='MIR symbolic execution to z3 (encode/decode round trip over symbolic-length byte arrays)', design='DESIGN.md section 2, C14')
 
+CHECKS['C10'] = dict(
+    text='Acceptance predicates of the real code compared with the specification for every clock instant (seconds and sub-second part), timestamp, type byte and salt: validate_timestamp accepts iff |floor(clock) - ts| <= 30; VMess auth_id::matching accepts only within 120 s; Mode type-byte table; the Shadowsocks 2022 TCP decoder (server and client, three cipher families) and the UDP decoders accept only the expected type byte and a fresh timestamp; the client accepts only a response echoing its own request salt; the server consults the salt cache before opening and records the salt on acceptance; salts are retained for at least 60 s; the VMess client accepts only the response authentication byte it sent.',
+    note='Trusted: rustc MIR dump, vf.engine, std::time and crypto contract models (AEAD opens are havoc: plaintext header fields are arbitrary), z3. The salt cache is a set contract; concurrent presentation (try_lock) and LRU internals are outside.',
+    technique='MIR symbolic execution to z3 (clock as a symbolic instant; acceptance implies specification)', design='DESIGN.md section 2, C10')
+
 NOT_APPLICABLE = {
  'C08': 'property is about long-lived async accept/select! loops under injected socket/TLS/DNS faults; no synchronous core that symbolic execution of MIR or Kani can reach (tokio runtime, epoll, FFI)',
  'C09': 'quantifies over thread interleavings of shared state; Kani has no thread model and Engine M is sequential',
